@@ -1043,6 +1043,35 @@ struct StrDriver {
             }
             if (kind == K_APPEND) {
                 // push_back based overloads: growing past capacity is a precondition violation, detected late
+                if (!misuse && !checks && len != npos) {
+                    // the shipped configuration (no contract macros): these overloads append character by character
+                    // and stop at the capacity. Whatever they keep, the string must stay inside its storage, with
+                    // size() <= capacity() and a terminator (the statement of C04 covers "the appending operations that
+                    // clamp to capacity")
+                    auto out = guarded(true, [&] { apply_mut(kind, var, v, B.sa); });
+                    (void)out;
+                    ++ctx.faultsFired;
+                    ++ctx.boundaryEvents;
+                    SIM_COUNT("F1.unchecked_append_clamped");
+                    ctx.log.s(" ->unchecked-clamp");
+                    if (!sane(a)) {
+                        ctx.violation("C04", "invariant:size-after-overflow", "size() exceeds capacity() after an append that did not fit (contract checks off)");
+                        ctx.stop = true;
+                        return;
+                    }
+                    if (v.data()[v.size()] != Char(0)) {
+                        ctx.violation("C04", "invariant:terminator-after-overflow", "string not terminated after an append that did not fit (contract checks off)");
+                    }
+                    if (!arena_guards_ok(a)) {
+                        ctx.violation("C02", "memory:guard-damaged", "an append that did not fit wrote outside the string object");
+                        arena_guards_repair(a);
+                    }
+                    resync(a);
+                    if (a != b && usesOther) {
+                        resync(b);
+                    }
+                    return;
+                }
                 if (!misuse) {
                     skip();
                     return;
